@@ -64,13 +64,13 @@ def evaluate(docs, which=("C04",)):
         stats[d["source"]] += 1
         if not isinstance(r, dict) or "strand" not in r:
             failures["C04"].append({"kind": "disagreement", "key": "impl-run", "summary": "runner failed: %r" % (r,), "replay": {"text": d["text"]}}); continue
-        names = ("same_graph", "spec_okb", "dgraph_ok")
+        names = ("same_graph", "spec_okb", "dgraph_ok", "place_okb")
         for lname, fl in zip(("strand", "struct"), dres[i] if isinstance(dres[i], list) and len(dres[i]) == 2 else (["?"], ["?"])):
             if isinstance(fl, list) and fl and all(x == "T" for x in fl): stats["denotation_hypotheses_hold"][lname] += 1
             elif fl != []:
-                bad = [n for n, x in zip(names, fl) if x != "T"] if isinstance(fl, list) and len(fl) == 3 else ["request"]
+                bad = [n for n, x in zip(names, fl) if x != "T"] if isinstance(fl, list) and len(fl) == 4 else ["request"]
                 for pid in ("C04", "C15"):
-                    failures[pid].append({"kind": "tie", "key": "denote:%s:%s" % (lname, ",".join(bad)), "summary": "hypothesis %s of the denotation theorems (seeded graph = declarative graph of the document / loaded specification well formed / node encoding increasing, links between declared nodes) fails for this document (%s layout): %r" % (",".join(bad), lname, fl),
+                    failures[pid].append({"kind": "tie", "key": "denote:%s:%s" % (lname, ",".join(bad)), "summary": "hypothesis %s of the denotation theorems (seeded graph = declarative graph of the document / loaded specification well formed / node encoding increasing, links between declared nodes / strand positions where the layout says) fails for this document (%s layout): %r" % (",".join(bad), lname, fl),
                                           "replay": {"files": {"doc.pil": d["text"]}, "layout": lname}})
         for j, lay in enumerate(("strand", "struct")):
             so = lay == "struct"
